@@ -53,6 +53,13 @@ type World interface {
 	Guard(k int, parentID, field string) Kind
 }
 
+// Interceptor is implemented by worlds in which a field interceptor (around
+// every field, plain ones included, outside its directives and resolver) may
+// fail: KValue = call on, KNull = answer nil, KError / KPanic.
+type Interceptor interface {
+	Intercept(parentType, parentID, field string) Kind
+}
+
 func NewUser(id string) *Obj {
 	o := &Obj{Type: "User", ID: id, Age: 20 + len(id)%7}
 	if len(id)%3 != 0 {
@@ -107,6 +114,10 @@ func execute(schema *ast.Schema, doc *ast.QueryDocument, op *ast.OperationDefini
 	rootType := schema.Query.Name
 	if op.Operation == ast.Mutation {
 		rootType = schema.Mutation.Name
+	}
+	if op.Operation == ast.Subscription {
+		// one event of the stream: the world answers the root field with the event's value
+		rootType = schema.Subscription.Name
 	}
 	data, ok := e.selectionSet(rootType, nil, op.SelectionSet, "")
 	if !ok {
@@ -344,6 +355,19 @@ func (e *exec) field(objType string, obj *Obj, c *collected, path string) (strin
 		return "null", true
 	}
 	t := def.Type
+	if ic, ok := e.w.(Interceptor); ok {
+		id := ""
+		if obj != nil {
+			id = obj.ID
+		}
+		switch ic.Intercept(objType, id, f.Name) {
+		case KNull:
+			return e.nullAt(t, path, false)
+		case KError, KPanic:
+			e.fail(path)
+			return e.nullAt(t, path, true)
+		}
+	}
 	// field-definition directives wrap the resolver
 	if g := def.Directives.ForName("guard"); g != nil {
 		k := 0
